@@ -31,6 +31,9 @@ type pkgIdx struct {
 	byBar map[string][]*ast.FuncDecl // bare name -> declarations (functions and methods)
 	byQ   map[string]*ast.FuncDecl   // "T.m" or "f" -> declaration
 	globs map[string]bool            // package-level variable names
+	// struct type -> field -> type text; package-level variable -> type text ("" when it cannot be read off)
+	fields    map[string]map[string]string
+	globTypes map[string]string
 }
 
 var pkgCache = map[string]*pkgIdx{}
@@ -57,7 +60,8 @@ func loadPkg(dir string) *pkgIdx {
 	if p, ok := pkgCache[dir]; ok {
 		return p
 	}
-	p := &pkgIdx{dir: dir, files: map[string]*ast.File{}, byBar: map[string][]*ast.FuncDecl{}, byQ: map[string]*ast.FuncDecl{}, globs: map[string]bool{}}
+	p := &pkgIdx{dir: dir, files: map[string]*ast.File{}, byBar: map[string][]*ast.FuncDecl{}, byQ: map[string]*ast.FuncDecl{}, globs: map[string]bool{},
+		fields: map[string]map[string]string{}, globTypes: map[string]string{}}
 	ents, _ := os.ReadDir(dir)
 	var names []string
 	for _, e := range ents {
@@ -83,8 +87,29 @@ func loadPkg(dir string) *pkgIdx {
 				if x.Tok == token.VAR {
 					for _, s := range x.Specs {
 						if vs, ok := s.(*ast.ValueSpec); ok {
-							for _, id := range vs.Names {
+							for i, id := range vs.Names {
 								p.globs[id.Name] = true
+								switch {
+								case vs.Type != nil:
+									p.globTypes[id.Name] = exprStr(vs.Type)
+								case i < len(vs.Values):
+									p.globTypes[id.Name] = typeOfInit(vs.Values[i])
+								}
+							}
+						}
+					}
+				}
+				if x.Tok == token.TYPE {
+					for _, s := range x.Specs {
+						if ts, ok := s.(*ast.TypeSpec); ok {
+							if st, ok := ts.Type.(*ast.StructType); ok {
+								fm := map[string]string{}
+								for _, f := range st.Fields.List {
+									for _, n := range f.Names {
+										fm[n.Name] = exprStr(f.Type)
+									}
+								}
+								p.fields[ts.Name.Name] = fm
 							}
 						}
 					}
@@ -94,6 +119,57 @@ func loadPkg(dir string) *pkgIdx {
 	}
 	pkgCache[dir] = p
 	return p
+}
+
+// typeOfInit reads the type off an initialiser: make(T, …), T{…}, &T{…}; "" otherwise
+func typeOfInit(e ast.Expr) string {
+	switch x := e.(type) {
+	case *ast.CallExpr:
+		if id, ok := x.Fun.(*ast.Ident); ok && id.Name == "make" && len(x.Args) > 0 {
+			return exprStr(x.Args[0])
+		}
+	case *ast.CompositeLit:
+		if x.Type != nil {
+			return exprStr(x.Type)
+		}
+	case *ast.UnaryExpr:
+		if x.Op == token.AND {
+			if t := typeOfInit(x.X); t != "" {
+				return "*" + t
+			}
+		}
+	}
+	return ""
+}
+
+// typedTarget renders what a store writes to: the class of the variable it is rooted at plus the path
+// below it, where the first field of a receiver and the name of a package-level variable are replaced by
+// their declared TYPES — recv:Expr.(map[string]reflect.Value)[], global:(map[string]reflect.Value)[] — so
+// that renaming a field or a variable changes nothing while writing to a field of another type does
+func (s *fnScope) typedTarget(l ast.Expr) string {
+	class := s.classOfExpr(l, 0)
+	shape := shapeOf(l)
+	if strings.HasPrefix(class, "recv:") {
+		if strings.HasPrefix(shape, ".") {
+			rest := shape[1:]
+			end := strings.IndexAny(rest, ".[*")
+			name := rest
+			if end >= 0 {
+				name = rest[:end]
+			}
+			if ft, ok := s.p.fields[strings.TrimPrefix(class, "recv:")][name]; ok && ft != "" {
+				return class + ".(" + ft + ")" + rest[len(name):]
+			}
+		}
+		return class + shape
+	}
+	if strings.HasPrefix(class, "global:") {
+		name := strings.TrimPrefix(class, "global:")
+		if gt := s.p.globTypes[name]; gt != "" {
+			return "global:(" + gt + ")" + shape
+		}
+	}
+	return class + shape
 }
 
 // inlined returns the event trace of fn ("f" or "T.m") with package-local callees spliced in.
@@ -117,6 +193,19 @@ func (p *pkgIdx) inlined(fn string) []string {
 					out = append(out, "key:"+strings.Trim(bl.Value, "\""))
 				}
 			case *ast.AssignStmt:
+				for _, l := range x.Lhs {
+					switch l.(type) {
+					case *ast.SelectorExpr, *ast.IndexExpr, *ast.StarExpr:
+						// a store through the receiver or into a package-level variable (what outlives the call)
+						c := newScope(p, fd).classOfExpr(l, 0)
+						switch {
+						case strings.HasPrefix(c, "recv:"):
+							out = append(out, "write:"+c)
+						case strings.HasPrefix(c, "global:"):
+							out = append(out, "write:global")
+						}
+					}
+				}
 				for _, r := range x.Rhs {
 					if _, ok := r.(*ast.StarExpr); ok {
 						out = append(out, "copy:*")
@@ -395,13 +484,13 @@ func normalisedSites(repo string, rels []string) (writes, muts []normSite) {
 					for _, l := range s.Lhs {
 						switch l.(type) {
 						case *ast.SelectorExpr, *ast.IndexExpr, *ast.StarExpr:
-							add(&writes, sc.classOfExpr(l, 0)+shapeOf(l))
+							add(&writes, sc.typedTarget(l))
 						}
 					}
 				case *ast.IncDecStmt:
 					switch s.X.(type) {
 					case *ast.SelectorExpr, *ast.IndexExpr, *ast.StarExpr:
-						add(&writes, sc.classOfExpr(s.X, 0)+shapeOf(s.X))
+						add(&writes, sc.typedTarget(s.X))
 					}
 				case *ast.CallExpr:
 					if se, ok := s.Fun.(*ast.SelectorExpr); ok {
@@ -435,9 +524,34 @@ var sortMutators = map[string]bool{"sort.Slice": true, "sort.SliceStable": true,
 // lockSummary: for every function of jsonata.go that mentions the package-level registry,
 // "<fn>|<R or W or ->|locked-before-first-use=<bool>|unlocks=<bool>|writes=<bool>"
 func lockSummary(repo string) []string {
-	jf := parseFile(filepath.Join(repo, "jsonata.go"))
+	// the registry and its lock are found by their types (a package-level map of reflect.Values, a package-level
+	// sync mutex), whatever they are called and whichever file of the package declares them
+	root := loadPkg(repo)
+	regName, muName := "globalRegistry", "globalRegistryMutex"
+	var gnames []string
+	for n := range root.globTypes {
+		gnames = append(gnames, n)
+	}
+	sort.Strings(gnames)
+	for _, n := range gnames {
+		switch root.globTypes[n] {
+		case "map[string]reflect.Value":
+			regName = n
+		case "sync.RWMutex", "sync.Mutex":
+			muName = n
+		}
+	}
+	var fnames []string
+	for n := range root.files {
+		fnames = append(fnames, n)
+	}
+	sort.Strings(fnames)
+	var decls []ast.Decl
+	for _, n := range fnames {
+		decls = append(decls, root.files[n].Decls...)
+	}
 	var out []string
-	for _, d := range jf.Decls {
+	for _, d := range decls {
 		fd, ok := d.(*ast.FuncDecl)
 		if !ok || fd.Body == nil {
 			continue
@@ -451,26 +565,26 @@ func lockSummary(repo string) []string {
 			switch x := n.(type) {
 			case *ast.AssignStmt:
 				for _, l := range x.Lhs {
-					if ie, ok := l.(*ast.IndexExpr); ok && exprStr(ie.X) == "globalRegistry" {
+					if ie, ok := l.(*ast.IndexExpr); ok && exprStr(ie.X) == regName {
 						writes = true
 					}
-					if id, ok := l.(*ast.Ident); ok && id.Name == "globalRegistry" {
+					if id, ok := l.(*ast.Ident); ok && id.Name == regName {
 						writes = true
 					}
 				}
 			case *ast.CallExpr:
 				s := exprStr(x.Fun)
-				if s == "delete" && len(x.Args) > 0 && exprStr(x.Args[0]) == "globalRegistry" {
+				if s == "delete" && len(x.Args) > 0 && exprStr(x.Args[0]) == regName {
 					writes = true
 				}
 				// the registry handed to a helper by address is handed over for writing
 				for _, a := range x.Args {
-					if u, ok := a.(*ast.UnaryExpr); ok && u.Op == token.AND && exprStr(u.X) == "globalRegistry" {
+					if u, ok := a.(*ast.UnaryExpr); ok && u.Op == token.AND && exprStr(u.X) == regName {
 						writes = true
 					}
 				}
-				if strings.HasPrefix(s, "globalRegistryMutex.") {
-					m := strings.TrimPrefix(s, "globalRegistryMutex.")
+				if strings.HasPrefix(s, muName+".") {
+					m := strings.TrimPrefix(s, muName+".")
 					switch m {
 					case "Lock", "RLock":
 						if mode == "-" {
@@ -488,7 +602,7 @@ func lockSummary(repo string) []string {
 					}
 				}
 			case *ast.Ident:
-				if x.Name == "globalRegistry" {
+				if x.Name == regName {
 					uses++
 				}
 			}
